@@ -189,7 +189,11 @@ def set_objective(
             )
         # Check whether expression only uses variables from current model;
         # clone the objective if not, faster than cloning without checking
-        if not _valid_atoms(model, value.expression):
+        # An objective that belongs to another problem must be cloned as well,
+        # even if its expression does not refer to any foreign variable.
+        if not _valid_atoms(model, value.expression) or getattr(
+            value, "problem", None
+        ) not in (None, model.solver):
             value = interface.Objective.clone(value, model=model.solver)
 
         if not additive:
